@@ -45,24 +45,53 @@ def run(eng: Engine, ck: Check):
     # ---- R-C07-PREFILTER-SOUND
     folds = [n for n in walk_local(q.node) if isinstance(n, ast.AugAssign) and isinstance(n.op, ast.BitAnd)]
     ck.floor('R-C07-PREFILTER', len(folds), 1)
+    conj_lists: set[str] = set()
     for fd in folds:
         lp = next((a for a in ancestors(fd) if isinstance(a, ast.For)), None)
         if lp is None or not isinstance(lp.iter, ast.Name):
             raise AnalysisError('R-C07-PREFILTER: conjunctive fold idiom not recognised')
-        L = lp.iter.id
-        ok_val = '_term_map[' in unparse(fd.value) and isinstance(lp.target, ast.Name) and lp.target.id in unparse(fd.value)
-        ck.ob('R-C07-PREFILTER', q, fd, f'the candidate set is the intersection of the term-map entries of every term in `{L}`', ok_val, unparse(fd), construct='prefilter fold')
+        conj_lists.add(lp.iter.id)
+        ok_val = isinstance(lp.target, ast.Name) and lp.target.id in unparse(fd.value)
+        ck.ob('R-C07-PREFILTER', q, fd, f'the candidate set is the intersection over every element of `{lp.iter.id}`', ok_val, unparse(fd), construct='prefilter fold')
+    # lists that feed a conjunctive list (L2.extend(L1), L2 = [f(x) for x in L1]) are conjunctive too
+    changed = True
+    while changed:
+        changed = False
+        for n in walk_local(q.node):
+            if isinstance(n, ast.Assign) and isinstance(n.targets[0], ast.Name) and n.targets[0].id in conj_lists and isinstance(n.value, ast.ListComp):
+                for g in n.value.generators:
+                    if isinstance(g.iter, ast.Name) and g.iter.id not in conj_lists:
+                        conj_lists.add(g.iter.id)
+                        changed = True
+            if isinstance(n, ast.Call) and call_name(n) == 'extend' and isinstance(n.func.value, ast.Name) and n.func.value.id in conj_lists and n.args and \
+                    isinstance(n.args[0], ast.Name) and n.args[0].id not in conj_lists:
+                conj_lists.add(n.args[0].id)
+                changed = True
+    ck.note(f'conjunctive lists of query(): {sorted(conj_lists)}')
+    # ALTERNATIVES = a filtered selection of index terms (term-map keys); they may only be consumed by a union
+    alts = {k: v for k, v in single_assignments(q).items()
+            if isinstance(v, (ast.ListComp, ast.SetComp, ast.GeneratorExp)) and any(g.ifs for g in v.generators) and any('_term_map' in unparse(g.iter) for g in v.generators)}
+    ck.floor('R-C07-PREFILTER.alternatives', len(alts), 1)
+    for a_name, a_def in alts.items():
+        bad = []
         for x in calls_in(q.node):
-            if isinstance(x.func, ast.Attribute) and isinstance(x.func.value, ast.Name) and x.func.value.id == L and x.func.attr in ('extend', 'append') and x.args:
-                v = expand_aliases(q, x.args[0])
-                alternatives = isinstance(v, (ast.ListComp, ast.SetComp, ast.GeneratorExp)) and any(g.ifs for g in v.generators) and \
-                    any('_term_map' in unparse(g.iter) for g in v.generators)
-                ck.ob('R-C07-PREFILTER', q, x, 'only NECESSARY terms enter the conjunctive prefilter (it may over-approximate the regex stage, never drop a match): '
-                      'a set of ALTERNATIVE index terms (e.g. all terms ending in the wildcard suffix) must be unioned before it is intersected',
-                      not (alternatives and x.func.attr == 'extend'),
-                      f'`{unparse(x)}` puts every alternative `{unparse(v)[:70]}` into the intersection: a file matches `*ong` through ONE term ending in "ong", '
-                      'but is kept only if it contains ALL such terms', construct=f'prefilter {x.func.attr} {alpha_key(v)[:60]}')
-        # terms missing from the index -> empty result: only for necessary terms
+            if isinstance(x.func, ast.Attribute) and isinstance(x.func.value, ast.Name) and x.func.value.id in conj_lists and x.func.attr in ('extend', 'append') and \
+                    x.args and mentions_name(x.args[0], a_name):
+                bad.append(x)
+        for n in walk_local(q.node):
+            if isinstance(n, ast.AugAssign) and isinstance(n.op, ast.Add) and isinstance(n.target, ast.Name) and n.target.id in conj_lists and mentions_name(n.value, a_name):
+                bad.append(n)
+            if isinstance(n, ast.For) and isinstance(n.iter, ast.Name) and n.iter.id == a_name:
+                body_calls = [x for st in n.body for x in calls_in(st) if isinstance(x.func, ast.Attribute) and isinstance(x.func.value, ast.Name)
+                              and x.func.value.id in conj_lists and x.func.attr in ('append', 'extend')]
+                bad += body_calls
+                unions = [m for st in n.body for m in ast.walk(st) if isinstance(m, ast.AugAssign) and isinstance(m.op, ast.BitOr)]
+                if not unions and not body_calls:
+                    bad.append(n)
+        ck.ob('R-C07-PREFILTER', q, a_def, 'only NECESSARY terms enter the conjunctive prefilter (it may over-approximate the regex stage, never drop a match): '
+              f'the ALTERNATIVE index terms `{a_name}` (all terms ending in the wildcard suffix) are unioned before they are intersected', not bad,
+              f'`{unparse(bad[0])[:80]}` puts every alternative into the intersection: a file matches `*ong` through ONE term ending in "ong" but is kept only '
+              'if it contains ALL such terms' if bad else '', construct=f'prefilter alternatives {a_name}')
     # early "no result" returns must be about necessary terms only
     for r in [n for n in walk_local(q.node) if isinstance(n, ast.Return) and unparse(n.value) == '([], [])']:
         gs = [(unparse(e), pol) for e, pol, _ in eng.guards_at(q, r)]
@@ -241,8 +270,12 @@ def run(eng: Engine, ck: Check):
         constructed = False
         for x in (calls_in(val) if val is not None else []):
             for cal in eng.res.callees(x, f):
-                if any(call_name(y) == 'SharedItem' and y.args and unparse(y.args[0]) in cal.params for y in calls_in(cal.node)):
-                    constructed = True
+                for y in calls_in(cal.node):
+                    if call_name(y) == 'SharedItem' and y.args and unparse(y.args[0]) in cal.params:
+                        # the directory parameter of the helper must be bound to `owner` at this call
+                        pidx = cal.params.index(unparse(y.args[0])) - (1 if cal.params and cal.params[0] == 'self' else 0)
+                        if 0 <= pidx < len(x.args) and unparse(x.args[pidx]) == owner:
+                            constructed = True
         if val is not None and isinstance(val, ast.Name):
             v = single_assignments(f).get(val.id)
             if v is not None:
